@@ -28,6 +28,11 @@ import (
 
 var prop = flag.String("prop", "C13", "property: C13|C14")
 
+// bufio buffer of the manager under test: larger than anything a case leaves unflushed, so that
+// bytes reach the files only at the flush points the model knows (Sync, Close, SyncOnWrite,
+// segment switch) and `w.disk` (file sizes WITHOUT a flush) is predicted exactly.
+const walBuf = 1 << 20
+
 // scratch directories: memory-backed when available (the cases fsync a lot; durability of the
 // scratch files is irrelevant: cuts are explicit truncations), $TMPDIR otherwise
 var tmpBase = func() string {
@@ -249,7 +254,7 @@ func childMain(args []string) {
 	case "verify":
 		fmt.Println(walStatus(wal.VerifyDir(dir, nil)))
 	case "replay", "replayinfo":
-		m, err := wal.Open(wal.Config{Dir: dir, SegmentSize: int64(seg), BufferSize: 64 << 10})
+		m, err := wal.Open(wal.Config{Dir: dir, SegmentSize: int64(seg), BufferSize: walBuf})
 		if err != nil {
 			fmt.Println("err:" + err.Error())
 			return
@@ -309,12 +314,41 @@ func (x *exec) one(op string) string {
 		if x.mgr != nil {
 			return "bad-op"
 		}
-		m, err := wal.Open(wal.Config{Dir: x.dir, SegmentSize: int64(atoi(t[1])), BufferSize: 64 << 10})
+		sow := len(t) > 2 && t[2] == "1"
+		m, err := wal.Open(wal.Config{Dir: x.dir, SegmentSize: int64(atoi(t[1])), BufferSize: walBuf, SyncOnWrite: sow})
 		if err != nil {
 			return "err:" + err.Error()
 		}
 		x.mgr = m
 		return "ok"
+	case "w.sync":
+		if x.mgr == nil {
+			return "bad-op"
+		}
+		if err := x.mgr.Sync(); err != nil {
+			return "err:" + err.Error()
+		}
+		return "ok"
+	case "w.switch":
+		if x.mgr == nil {
+			return "bad-op"
+		}
+		if err := x.mgr.SwitchSegment(uint32(atoi(t[1])), t[2] == "1"); err != nil {
+			return "err:" + err.Error()
+		}
+		x.hdr0 = map[int]bool{}
+		return "ok"
+	case "w.disk":
+		var out []string
+		for _, f := range x.segFiles() {
+			var id int
+			if _, err := fmt.Sscanf(filepath.Base(f), "%05d.wal", &id); err != nil {
+				continue
+			}
+			st, _ := os.Stat(f)
+			out = append(out, fmt.Sprintf("%d:%d", id, st.Size()))
+		}
+		return strings.Join(out, ",")
 	case "w.close":
 		if x.mgr == nil {
 			return "bad-op"
@@ -616,7 +650,7 @@ func (e *engine) Extra() map[string]any { return e.extra }
 
 func (e *engine) Rule() string {
 	if e.prop == "C13" {
-		return "C13: real wal.Manager on a temp dir: typed records of sizes {0,1,2,3,100,near 64KiB segment size}, rotations (explicit and by capacity), close, cut of the newest segment (every offset of a small tail in the exhaustive cases, sampled otherwise), VerifyDir, reopen, more appends, replay; non-trivial = a cut that lands strictly inside a record (torn tail) followed by reopen+append+replay, or a replay across >= 2 segments"
+		return "C13: real wal.Manager on a temp dir: typed records of sizes {0,1,2,3,100,near 64KiB segment size}, rotations (explicit and by capacity), close, cut of the newest segment (every offset of a small tail in the exhaustive cases, sampled otherwise), VerifyDir, reopen, more appends, replay; non-trivial = a cut that lands strictly inside a record (torn tail) followed by reopen+append+replay, or a replay across >= 2 segments, or an AppendRecords batch whose capacity rotation falls between two of its records (issued on a clean log: after Open/Sync or in SyncOnWrite mode), or a SwitchSegment call (active id, next id, older ids, new ids, with/without truncation) between buffered appends, or a record larger than the segment size"
 	}
 	return "C14: (a) Lean crc32c vs hash/crc32 Castagnoli on random inputs; (b) every single-bit flip of a small real WAL segment, replayed by wal.Manager; (c) every single-bit flip of encoded kv entries through DecodeValueSlice and EntryIterator/DecodeEntryFrom; (d) every single-bit flip of a real value-log segment built and read back by vlog.Manager (ReadValue, Iterate); non-trivial = a case with at least one flipped bit whose outcome is an error or a shortened prefix"
 }
@@ -961,6 +995,192 @@ func (e *engine) genC14(r *hlib.Rand, tier string) []string {
 	return ops
 }
 
+// ---- buffered-manager cases (third-round strengthening) ----
+
+// cleanOps makes the log "clean" (nothing appended since the last flush+fsync) in one of the
+// ways the code distinguishes: explicit Sync, Close+Open, or nothing when SyncOnWrite is on.
+func cleanOps(r *hlib.Rand, segsz int, sow bool) []string {
+	if sow {
+		return nil
+	}
+	if r.Bool() {
+		return []string{"w.sync"}
+	}
+	return []string{"w.close", fmt.Sprintf("w.open %d", segsz)}
+}
+
+// genC13Batch: one AppendRecords call whose size-triggered rotation falls between records k and
+// k+1, for every k of the batch, issued on a clean log.
+func (e *engine) genC13Batch(r *hlib.Rand) []string {
+	const eff = 65536
+	segsz := hlib.Pick(r, []int{65536, 1, 40000})
+	sow := r.Chance(35)
+	open := fmt.Sprintf("w.open %d", segsz)
+	if sow {
+		open += " 1"
+	}
+	ops := []string{open}
+	cur := 0
+	m := 2 + r.Intn(4)
+	for k := 1; k < m; k++ {
+		// bring the active segment to a known fill level leaving room for k small records
+		small := make([]int, m)
+		for i := range small {
+			small[i] = hlib.Pick(r, []int{0, 1, 3, 100, 2000, 8000})
+		}
+		need := 0
+		for i := 0; i < k; i++ {
+			need += small[i] + 9
+		}
+		slack := r.Intn(3000)
+		fill := eff - cur - need - slack - 9
+		if fill < 0 {
+			ops = append(ops, "w.rotate")
+			cur = 0
+			fill = eff - need - slack - 9
+		}
+		ops = append(ops, fmt.Sprintf("w.appg %d %d %d", r.Intn(4), fill, r.Intn(256)))
+		cur += fill + 9
+		ops = append(ops, cleanOps(r, segsz, sow)...)
+		if r.Chance(30) {
+			ops = append(ops, "w.disk")
+		}
+		// records 1..k fit (need bytes), record k+1 must not: it needs more than `slack` bytes
+		var items []string
+		after := 0
+		for i := 0; i < m; i++ {
+			n := small[i]
+			if i == k {
+				n = slack + 1 + r.Intn(500) // does not fit behind the first k
+				if n < 9 {
+					n = 9
+				}
+				n -= 9
+				if n+9 <= slack {
+					n = slack - 8
+				}
+			}
+			items = append(items, fmt.Sprintf("%d:%d:%d", r.Intn(4), n, r.Intn(256)))
+			if i >= k {
+				after += n + 9
+			}
+		}
+		ops = append(ops, "w.batch "+strings.Join(items, ","))
+		cur = after
+		ops = append(ops, "w.disk")
+		if r.Chance(50) {
+			ops = append(ops, "w.replay")
+		}
+	}
+	ops = append(ops, "w.replay", "w.replayinfo", "w.close", "w.verify", "w.segs", open, "w.replay")
+	return ops
+}
+
+// genC13Switch: SwitchSegment to the active id (the LSM's resume call), to the next id, to older
+// and to new ids, with and without truncation, between appends that are still buffered.
+func (e *engine) genC13Switch(r *hlib.Rand) []string {
+	segsz := hlib.Pick(r, []int{0, 65536})
+	sow := r.Chance(20)
+	open := fmt.Sprintf("w.open %d", segsz)
+	if sow {
+		open += " 1"
+	}
+	ops := []string{open}
+	active, maxID := 1, 1
+	smallRec := func() string {
+		n := hlib.Pick(r, []int{0, 1, 2, 3, 100, 300})
+		return fmt.Sprintf("w.appg %d %d %d", r.Intn(4), n, r.Intn(256))
+	}
+	steps := 3 + r.Intn(8)
+	for i := 0; i < steps; i++ {
+		for j := r.Intn(3); j >= 0; j-- {
+			ops = append(ops, smallRec())
+		}
+		if r.Chance(20) {
+			ops = append(ops, "w.batch "+fmt.Sprintf("%d:%d:%d,%d:%d:%d", r.Intn(4), r.Intn(50), r.Intn(256), r.Intn(4), r.Intn(50), r.Intn(256)))
+		}
+		if r.Chance(25) {
+			ops = append(ops, "w.sync")
+		}
+		if r.Chance(30) {
+			ops = append(ops, "w.disk")
+		}
+		switch x := r.Intn(100); {
+		case x < 45: // resume the active segment
+			ops = append(ops, fmt.Sprintf("w.switch %d 0", active))
+		case x < 60: // next id, created (what lsm/memtable.go does on a new memtable)
+			maxID++
+			active = maxID
+			ops = append(ops, fmt.Sprintf("w.switch %d 1", active))
+		case x < 70:
+			ops = append(ops, "w.rotate")
+			active++
+			if active > maxID {
+				maxID = active
+			}
+		case x < 80: // an older segment, appended to
+			active = 1 + r.Intn(maxID)
+			ops = append(ops, fmt.Sprintf("w.switch %d 0", active))
+		case x < 88: // a new id with a gap, not truncating
+			maxID += 1 + r.Intn(3)
+			active = maxID
+			ops = append(ops, fmt.Sprintf("w.switch %d 0", active))
+		case x < 94: // recreate the active segment
+			ops = append(ops, fmt.Sprintf("w.switch %d 1", active))
+		default: // recreate some existing segment
+			active = 1 + r.Intn(maxID)
+			ops = append(ops, fmt.Sprintf("w.switch %d 1", active))
+		}
+		if r.Chance(40) {
+			ops = append(ops, "w.disk")
+		}
+		if r.Chance(30) {
+			ops = append(ops, "w.replay")
+		}
+	}
+	ops = append(ops, smallRec(), "w.disk", "w.replay", "w.replayinfo", "w.close", "w.verify", "w.segs", open, "w.replay")
+	return ops
+}
+
+// genC13Big: records larger than the (minimum) segment size: AppendRecords writes them whole
+// into a fresh segment; replay must deliver them and everything behind them.
+func (e *engine) genC13Big(r *hlib.Rand) []string {
+	segsz := hlib.Pick(r, []int{1, 65536, 65536})
+	open := fmt.Sprintf("w.open %d", segsz)
+	if r.Chance(25) {
+		open += " 1"
+	}
+	ops := []string{open}
+	bigs := []int{65536 - 8, 65536, 65537, 66000, 70000, 131072, 200000}
+	n := 2 + r.Intn(5)
+	last := ""
+	for i := 0; i < n; i++ {
+		switch x := r.Intn(100); {
+		case x < 45:
+			last = fmt.Sprintf("w.appg %d %d %d", r.Intn(4), hlib.Pick(r, bigs), r.Intn(256))
+			ops = append(ops, last)
+		case x < 60:
+			last = fmt.Sprintf("w.batch %d:%d:%d,%d:%d:%d,%d:%d:%d", r.Intn(4), hlib.Pick(r, sizes), r.Intn(256),
+				r.Intn(4), hlib.Pick(r, bigs), r.Intn(256), r.Intn(4), hlib.Pick(r, sizes), r.Intn(256))
+			ops = append(ops, last)
+		case x < 70:
+			ops = append(ops, "w.sync")
+		default:
+			last = e.genRec(r, false)
+			ops = append(ops, last)
+		}
+	}
+	if r.Chance(50) { // a big record as the very last one
+		ops = append(ops, fmt.Sprintf("w.appg %d %d %d", r.Intn(4), hlib.Pick(r, bigs), r.Intn(256)))
+	}
+	ops = append(ops, "w.replay", "w.close")
+	if r.Chance(50) {
+		ops = append(ops, fmt.Sprintf("w.cut %d", 60000+r.Intn(20000)))
+	}
+	ops = append(ops, "w.verify", "w.segs", open, "w.replay", e.genRec(r, false), "w.replay", "w.replayinfo")
+	return ops
+}
+
 func (e *engine) Gen(r *hlib.Rand, tier string) []string {
 	if e.prop == "C14" {
 		return e.genC14(r, tier)
@@ -968,6 +1188,14 @@ func (e *engine) Gen(r *hlib.Rand, tier string) []string {
 	e.counter++
 	if e.counter%25 == 1 {
 		return e.genC13Sweep(r)
+	}
+	switch e.counter % 6 {
+	case 2:
+		return e.genC13Batch(r)
+	case 3:
+		return e.genC13Switch(r)
+	case 4:
+		return e.genC13Big(r)
 	}
 	return e.genC13(r, tier)
 }
@@ -994,6 +1222,21 @@ func (e *engine) Nontrivial(ops, impl, model, spec []string) bool {
 	torn, reopened, appended := false, false, false
 	rot := 0
 	for i, op := range ops {
+		if strings.HasPrefix(op, "w.batch") {
+			// a capacity rotation between two records of one AppendRecords call
+			infos := strings.Split(impl[i], ",")
+			if len(infos) >= 2 && strings.Split(infos[0], ":")[0] != strings.Split(infos[len(infos)-1], ":")[0] {
+				return true
+			}
+		}
+		if strings.HasPrefix(op, "w.switch") {
+			return true
+		}
+		if strings.HasPrefix(op, "w.appg") {
+			if f := strings.Fields(op); atoi(f[2]) > 65536 {
+				return true
+			}
+		}
 		switch {
 		case strings.HasPrefix(op, "w.cut"):
 			torn = true
